@@ -77,8 +77,9 @@ type GCase struct {
 	Prev     *GOutcome `json:"prev,omitempty"`
 	Obs      []GObs    `json:"obs"`
 	// observed
-	OutErr  bool   `json:"out_err"`
-	OutJSON string `json:"out_json,omitempty"`
+	OutErr  bool     `json:"out_err"`
+	OutJSON string   `json:"out_json,omitempty"`
+	AltOuts []string `json:"alt_outs,omitempty"` // other distinct outcomes seen among the evaluations (map order!)
 	Det     bool   `json:"det"`
 	Evals   int    `json:"evals"`
 }
